@@ -14,6 +14,8 @@ type TExpr struct {
 	Sort string
 	GoT  types.Type // optional
 	Cell *CellRef   // the identifier denotes the content of a heap cell
+	Ghost string    // a ghost heap component (must be indexed)
+	Old   bool      // known to denote an object that existed before the current API call (reads go to the old heap)
 }
 
 type CellRef struct{ Comp, Sort, Ref string }
@@ -24,8 +26,19 @@ type Scope struct {
 	eng     *Engine
 	il      *ILFunc // heap variables are registered here; nil => no heap access allowed
 	useOld  bool    // heap reads refer to the entry state
-	oldHook func(n *NOld) (TExpr, bool)
+	oldHook func(s *Scope, n *NOld) (TExpr, bool)
 	heapFn  func(comp, sort string) string // overrides heap variable reference (e.g. snapshot)
+	pdepth  int
+}
+
+func (s *Scope) depth() int {
+	d := 0
+	for c := s; c != nil; c = c.parent {
+		if c.pdepth > d {
+			d = c.pdepth
+		}
+	}
+	return d
 }
 
 func (s *Scope) child() *Scope {
@@ -41,19 +54,49 @@ func (s *Scope) lookup(name string) (TExpr, bool) {
 	return TExpr{}, false
 }
 
-func (s *Scope) heap(comp, sort string) string {
-	if s.heapFn != nil {
-		return s.heapFn(comp, sort)
-	}
+// hsel reads heap component comp at ref in the state the scope denotes.
+func (s *Scope) hsel(comp, sort, ref string, knownOld bool) string {
 	if s.il == nil {
 		panic(elabErr("heap access (" + comp + ") in a context without heap"))
 	}
-	v := s.il.mvar(comp, sort)
-	v.Comp = comp
-	if s.useOld {
-		return old(v)
+	if knownOld {
+		return fmt.Sprintf("(select %s %s)", heapOldName(s.il, comp, sort), ref)
 	}
-	return cur(v)
+	return heapSel(s.il, comp, sort, ref, s.useOld, s.heapFn)
+}
+
+// oldNames collects identifiers v for which the formula n contains the conjunct isold(v).
+func oldNames(n Node, out map[string]bool) {
+	switch x := n.(type) {
+	case *NBinary:
+		if x.Op == "&&" {
+			oldNames(x.X, out)
+			oldNames(x.Y, out)
+		}
+	case *NCall:
+		if x.Fn == "isold" && len(x.Args) == 1 {
+			if id, ok := x.Args[0].(*NIdent); ok {
+				out[id.Name] = true
+			}
+		}
+	}
+}
+
+// withOld returns a scope in which the identifiers named by isold(...) conjuncts of hyp are known to be old.
+func (s *Scope) withOld(hyp Node) *Scope {
+	names := map[string]bool{}
+	oldNames(hyp, names)
+	if len(names) == 0 {
+		return s
+	}
+	c := s.child()
+	for n := range names {
+		if v, ok := s.lookup(n); ok {
+			v.Old = true
+			c.vars[n] = v
+		}
+	}
+	return c
 }
 
 type elabErr string
@@ -132,12 +175,12 @@ func (s *Scope) el(n Node) TExpr {
 	case *NIdent:
 		if v, ok := s.lookup(n.Name); ok {
 			if v.Cell != nil {
-				return TExpr{E: fmt.Sprintf("(select %s %s)", s.heap(v.Cell.Comp, v.Cell.Sort), v.Cell.Ref), Sort: v.Sort, GoT: v.GoT}
+				return TExpr{E: s.hsel(v.Cell.Comp, v.Cell.Sort, v.Cell.Ref, false), Sort: v.Sort, GoT: v.GoT}
 			}
 			return v
 		}
 		if srt, ok := s.eng.ghost[n.Name]; ok {
-			return TExpr{E: s.heap(n.Name, srt), Sort: srt}
+			return TExpr{E: "", Sort: srt, Ghost: n.Name}
 		}
 		if f := s.eng.specFuncs[n.Name]; f != nil && len(f.Params) == 0 {
 			return TExpr{E: f.Name, Sort: userSort(f.Ret)}
@@ -145,10 +188,32 @@ func (s *Scope) el(n Node) TExpr {
 		if c, ok := s.eng.smtConsts[n.Name]; ok {
 			return TExpr{E: n.Name, Sort: c}
 		}
+		if s.il != nil {
+			if g := s.eng.globalVar(n.Name); g != nil {
+				t := g.Type().(*types.Pointer).Elem()
+				srt := s.eng.sorts.sortOf(t).Sort
+				name := "G_" + sanitize(g.Pkg.Pkg.Name()+"."+g.Name())
+				if s.heapFn != nil {
+					return TExpr{E: s.heapFn(name, srt), Sort: srt, GoT: t}
+				}
+				gv := s.il.mvar(name, srt)
+				gv.Comp = name
+				if s.useOld {
+					return TExpr{E: old(gv), Sort: srt, GoT: t}
+				}
+				return TExpr{E: cur(gv), Sort: srt, GoT: t}
+			}
+		}
+		switch n.Name {
+		case "rv_invalid":
+			return TExpr{E: "rv_invalid", Sort: "RV"}
+		case "rt_nil":
+			return TExpr{E: "rt_nil", Sort: "RT"}
+		}
 		s.fail("unknown identifier %q", n.Name)
 	case *NOld:
 		if s.oldHook != nil {
-			if te, ok := s.oldHook(n); ok {
+			if te, ok := s.oldHook(s, n); ok {
 				return te
 			}
 		}
@@ -173,7 +238,7 @@ func (s *Scope) el(n Node) TExpr {
 			if x.GoT != nil {
 				if p, ok := x.GoT.Underlying().(*types.Pointer); ok {
 					comp, srt := s.eng.sorts.cellComp(p.Elem())
-					return TExpr{E: fmt.Sprintf("(select %s %s)", s.heap(comp, srt), x.E), Sort: s.eng.sorts.sortOf(p.Elem()).Sort, GoT: p.Elem()}
+					return TExpr{E: s.hsel(comp, srt, x.E, x.Old), Sort: s.eng.sorts.sortOf(p.Elem()).Sort, GoT: p.Elem(), Old: x.Old}
 				}
 			}
 			s.fail("cannot dereference value of sort %s", x.Sort)
@@ -184,8 +249,8 @@ func (s *Scope) el(n Node) TExpr {
 		c := s.child()
 		var bs []string
 		for _, v := range n.Vars {
-			srt := userSort(v.Sort)
-			c.vars[v.Name] = TExpr{E: v.Name + "!q", Sort: srt}
+			srt, gt := s.resolveSort(v.Sort)
+			c.vars[v.Name] = TExpr{E: v.Name + "!q", Sort: srt, GoT: gt}
 			bs = append(bs, fmt.Sprintf("(%s!q %s)", v.Name, srt))
 		}
 		body := c.el(n.Body)
@@ -199,15 +264,19 @@ func (s *Scope) el(n Node) TExpr {
 	case *NIndex:
 		x := s.el(n.X)
 		i := s.el(n.I)
+		if x.Ghost != "" {
+			parts := splitSortArgs(x.Sort)
+			return TExpr{E: s.hsel(x.Ghost, x.Sort, i.E, i.Old), Sort: parts[1]}
+		}
 		if x.GoT != nil {
 			switch u := x.GoT.Underlying().(type) {
 			case *types.Slice:
 				comp, srt := s.eng.sorts.elemComp(u.Elem())
-				return TExpr{E: fmt.Sprintf("(select (select %s (s_arr %s)) %s)", s.heap(comp, srt), x.E, i.E), Sort: s.eng.sorts.sortOf(u.Elem()).Sort, GoT: u.Elem()}
+				return TExpr{E: fmt.Sprintf("(select %s %s)", s.hsel(comp, srt, "(s_arr "+x.E+")", x.Old), i.E), Sort: s.eng.sorts.sortOf(u.Elem()).Sort, GoT: u.Elem(), Old: x.Old}
 			case *types.Map:
 				mi := s.eng.sorts.mapInfo(x.GoT)
 				comp, srt := mi.valComp()
-				return TExpr{E: fmt.Sprintf("(select (select %s %s) %s)", s.heap(comp, srt), x.E, i.E), Sort: mi.VSort, GoT: u.Elem()}
+				return TExpr{E: fmt.Sprintf("(select %s %s)", s.hsel(comp, srt, x.E, x.Old), i.E), Sort: mi.VSort, GoT: u.Elem(), Old: x.Old}
 			case *types.Basic:
 				if u.Info()&types.IsString != 0 {
 					return TExpr{E: fmt.Sprintf("(str.at %s %s)", x.E, i.E), Sort: "String"}
@@ -246,6 +315,21 @@ func splitSortArgs(srt string) []string {
 		}
 	}
 	return []string{inner, ""}
+}
+
+// resolveSort maps a sort name in a specification to an SMT sort and, for Go types, the Go type.
+func (s *Scope) resolveSort(name string) (string, types.Type) {
+	switch name {
+	case "int", "bool", "string", "real", "Ref", "Int", "Bool", "String", "Real":
+		return userSort(name), nil
+	}
+	if strings.HasPrefix(name, "Array<") {
+		return userSort(name), nil
+	}
+	if gt := s.eng.goTypeOf(name); gt != nil {
+		return s.eng.sorts.sortOf(gt).Sort, gt
+	}
+	return userSort(name), nil
 }
 
 func (s *Scope) unify(a, b TExpr) (TExpr, TExpr) {
@@ -287,7 +371,12 @@ func (s *Scope) nilOf(t TExpr) TExpr {
 
 func (s *Scope) elBinary(n *NBinary) TExpr {
 	x := s.el(n.X)
-	y := s.el(n.Y)
+	var y TExpr
+	if n.Op == "&&" || n.Op == "==>" {
+		y = s.withOld(n.X).el(n.Y)
+	} else {
+		y = s.el(n.Y)
+	}
 	switch n.Op {
 	case "&&":
 		return TExpr{E: "(and " + x.E + " " + y.E + ")", Sort: "Bool"}
@@ -362,7 +451,7 @@ func (s *Scope) elField(n *NField) TExpr {
 					s.fail("no field %s in %s", n.Name, t)
 				}
 				comp, srt := s.eng.sorts.fieldComp(p.Elem(), idx)
-				return TExpr{E: fmt.Sprintf("(select %s %s)", s.heap(comp, srt), x.E), Sort: s.eng.sorts.sortOf(ft).Sort, GoT: ft}
+				return TExpr{E: s.hsel(comp, srt, x.E, x.Old), Sort: s.eng.sorts.sortOf(ft).Sort, GoT: ft, Old: x.Old}
 			}
 		}
 		if st, ok := t.Underlying().(*types.Struct); ok && !strings.HasPrefix(x.Sort, "R") {
@@ -371,7 +460,7 @@ func (s *Scope) elField(n *NField) TExpr {
 				s.fail("no field %s in %s", n.Name, t)
 			}
 			si := s.eng.sorts.structInfo(t)
-			return TExpr{E: fmt.Sprintf("(%s_%s %s)", si.Name, n.Name, x.E), Sort: s.eng.sorts.sortOf(ft).Sort, GoT: ft}
+			return TExpr{E: fmt.Sprintf("(%s_%s %s)", si.Name, n.Name, x.E), Sort: s.eng.sorts.sortOf(ft).Sort, GoT: ft, Old: x.Old}
 		}
 	}
 	switch x.Sort {
@@ -418,7 +507,7 @@ func (s *Scope) elCall(n *NCall) TExpr {
 			if _, ok := x.GoT.Underlying().(*types.Map); ok {
 				mi := s.eng.sorts.mapInfo(x.GoT)
 				comp, srt := mi.lenComp()
-				return TExpr{E: fmt.Sprintf("(select %s %s)", s.heap(comp, srt), x.E), Sort: "Int"}
+				return TExpr{E: s.hsel(comp, srt, x.E, x.Old), Sort: "Int"}
 			}
 		}
 		s.fail("len of sort %s", x.Sort)
@@ -428,13 +517,20 @@ func (s *Scope) elCall(n *NCall) TExpr {
 			if _, ok := x.GoT.Underlying().(*types.Map); ok {
 				mi := s.eng.sorts.mapInfo(x.GoT)
 				comp, srt := mi.domComp()
-				return TExpr{E: fmt.Sprintf("(select (select %s %s) %s)", s.heap(comp, srt), x.E, args[1].E), Sort: "Bool"}
+				return TExpr{E: fmt.Sprintf("(select %s %s)", s.hsel(comp, srt, x.E, x.Old), args[1].E), Sort: "Bool"}
 			}
 		}
 		s.fail("has() needs a Go map")
 	case "fresh":
 		// allocated since function entry (or since the call, in a callee postcondition at a call site)
 		return TExpr{E: fmt.Sprintf("(> %s %s)", refOf(args[0]), s.allocRef(true)), Sort: "Bool"}
+	case "new":
+		// allocated during the current API call (not visible to the caller of the API)
+		return TExpr{E: fmt.Sprintf("(> %s epoch)", refOf(args[0])), Sort: "Bool"}
+	case "newOrNil":
+		return TExpr{E: fmt.Sprintf("(or (= %s 0) (> %s epoch))", refOf(args[0]), refOf(args[0])), Sort: "Bool"}
+	case "isold":
+		return TExpr{E: fmt.Sprintf("(<= %s epoch)", refOf(args[0])), Sort: "Bool"}
 	case "allocated":
 		return TExpr{E: fmt.Sprintf("(<= %s %s)", refOf(args[0]), s.allocRef(false)), Sort: "Bool"}
 	case "isnil":
@@ -461,10 +557,54 @@ func (s *Scope) elCall(n *NCall) TExpr {
 		return TExpr{E: "(str.contains " + args[0].E + " " + args[1].E + ")", Sort: "Bool"}
 	case "substr":
 		return TExpr{E: "(str.substr " + args[0].E + " " + args[1].E + " " + args[2].E + ")", Sort: "String"}
-	case "anyIs":
-		// anyIs(x, "ctor"): dynamic type test
-		name := strings.Trim(args[1].E, "\"")
-		return TExpr{E: "((_ is any_" + name + ") " + args[0].E + ")", Sort: "Bool"}
+	case "anyIs", "anyVal":
+		// anyIs(x, "Go type"): dynamic type test; anyVal(x, "Go type"): the boxed value
+		lit, ok := n.Args[1].(*NStr)
+		if !ok {
+			s.fail("%s needs a type string", n.Fn)
+		}
+		gt := s.eng.goTypeOf(lit.V)
+		if gt == nil {
+			s.fail("unknown Go type %q", lit.V)
+		}
+		c := s.eng.sorts.anyCtor(gt)
+		if n.Fn == "anyIs" {
+			return TExpr{E: "((_ is " + c.Name + ") " + args[0].E + ")", Sort: "Bool"}
+		}
+		return TExpr{E: "(val_" + c.Name + " " + args[0].E + ")", Sort: c.Sort, GoT: gt}
+	case "addr":
+		id, ok := n.Args[0].(*NIdent)
+		if !ok || s.eng.globalVar(id.Name) == nil {
+			s.fail("addr() needs a package-level variable")
+		}
+		g := s.eng.globalVar(id.Name)
+		return TExpr{E: "gaddr_G_" + sanitize(g.Pkg.Pkg.Name()+"."+g.Name()), Sort: "Int"}
+	}
+	if p := s.eng.preds[n.Fn]; p != nil {
+		if len(p.Params) != len(args) {
+			s.fail("%s expects %d arguments, got %d", n.Fn, len(p.Params), len(args))
+		}
+		if s.depth() > 40 {
+			s.fail("predicate expansion too deep (recursive pred %s?)", n.Fn)
+		}
+		c := &Scope{vars: map[string]TExpr{}, parent: nil, eng: s.eng, il: s.il, useOld: s.useOld, oldHook: s.oldHook, heapFn: s.heapFn, pdepth: s.depth() + 1}
+		for i, pv := range p.Params {
+			srt, gt := s.resolveSort(pv.Sort)
+			a := args[i]
+			if a.Sort == "Nil" {
+				a = s.nilOf(TExpr{Sort: srt})
+			}
+			if a.Sort != srt {
+				s.fail("%s: argument %d has sort %s, want %s", n.Fn, i, a.Sort, srt)
+			}
+			if gt != nil {
+				a.GoT = gt
+			}
+			a.Cell = nil
+			c.vars[pv.Name] = a
+		}
+		r := c.el(p.Body)
+		return TExpr{E: r.E, Sort: "Bool"}
 	}
 	if f := s.eng.specFuncs[n.Fn]; f != nil {
 		if len(f.Params) != len(args) {
